@@ -173,6 +173,26 @@ def mutsOkB (M : Muts α) (n : Nat) : Bool :=
   M.pos.size == M.node.size &&
   (List.range M.node.size).all fun m => decide (aget M.node m < n) && decide (0 ≤ aget M.pos m)
 
+/-- parent of node `c` in the local tree at `pos` (`none` for a root / a node not in the tree) -/
+def parentAt (T : Tables α) (pos : α) (c : Nat) : Option Nat :=
+  ((List.range T.numEdges).find? fun e => T.chi e == c && activeAt T pos e).map T.par
+
+/-- `u` is reached from `v` by following at most `fuel` parent pointers (`u = v` included) -/
+def reaches (par : Nat → Option Nat) (u : Nat) : Nat → Nat → Bool
+  | 0, v => v == u
+  | k + 1, v => v == u || match par v with
+    | none => false
+    | some p => reaches par u k p
+
+/-- Number of `mask` nodes at or below `u` in the local tree at `pos` (a path in a forest on `n`
+nodes has fewer than `n` edges). -/
+def samplesBelow (T : Tables α) (mask : Array Bool) (pos : α) (u : Nat) : Nat :=
+  (List.range mask.size).countP fun v => aget mask v && reaches (parentAt T pos) u mask.size v
+
+/-- every edge's parent is strictly older than its child (`times` = `nodes_time`): no cycles -/
+def timesOkB (T : Tables α) (times : Array α) : Bool :=
+  (List.range T.numEdges).all fun e => decide (aget times (T.chi e) < aget times (T.par e))
+
 end Spec
 
 /-! ### `mutation_span_array` -/
